@@ -8,13 +8,17 @@ import TickitModel.Props.C06
 namespace Tickit
 
 /-- what is fixed during one tick of the master, about the schedulers -/
-structure SchedCtx (S : Static) (σ₀ : SimSt) (t : SimTime) (Root : Comp → Prop) : Prop where
-  due_root : ∀ s c, S.isSys s = true → c ∈ nestedDue (σ₀.sched s).wake t → Root c
-  root_due : ∀ s c, S.isSys s = true → Root c →
+structure SchedCtx (S : Static) (σ₀ : SimSt) (t : SimTime) (Root Due : Comp → Prop) : Prop where
+  /-- `Due`: the component's own wakeup entry is served (removed) in this tick; `Root`: it is a
+  root of its level's tick (due, interrupted, or initial tick) -/
+  due_sub : ∀ c, Due c → Root c
+  due_up : ∀ c P, alookup S.parent c = some P → P ≠ "" → Due c → Due P
+  due_root : ∀ s c, S.isSys s = true → c ∈ nestedDue (σ₀.sched s).wake t → Due c
+  root_due : ∀ s c, S.isSys s = true → Due c →
     c ∈ nestedDue (σ₀.sched s).wake t ∨ alookup (σ₀.sched s).wake c = none
   keys₀ : ∀ L c, c ∈ akeys (σ₀.sched L).wake → alookup S.parent c = some L
   unique₀ : ∀ L, UniqueKeys (σ₀.sched L).wake
-  min₀ : ∀ s P, S.isSys s = true → alookup S.parent s = some P →
+  min₀ : ∀ s P, S.isSys s = true → alookup S.parent s = some P → ¬ Due s →
     alookup (σ₀.sched P).wake s = (firstWakeups (σ₀.sched s).wake).2
   started₀ : ∀ s, S.isSys s = true → ¬ Root s →
     (σ₀.sched s).firstDone = true ∧ (σ₀.sched s).interrupts = []
@@ -67,12 +71,12 @@ theorem LvlOK.transport {S : Static} {orc : Oracle} {σ₀ : SimSt} {Root : Comp
 
 /-- the subtree of a component that is not ticked keeps its schedulers, which are in order -/
 theorem unticked_sched {S : Static} (hS : S.Valid) {orc : Oracle} {σ₀ : SimSt} {t : SimTime}
-    {Root : Comp → Prop} (ctx : TickCtx S σ₀ t Root) (sctx : SchedCtx S σ₀ t Root) {c : Comp}
+    {Root Due : Comp → Prop} (ctx : TickCtx S σ₀ t Root) (sctx : SchedCtx S σ₀ t Root Due) {c : Comp}
     (hnr : ¬ Root c) {st : SimSt} {mobs : List Obs}
     (hsame : ∀ s, S.Own c s → st.sched s = σ₀.sched s)
     (hunobs : ∀ x, S.Own c x → x ∉ mobs.map Obs.comp) :
     ∀ s, S.Own c s → S.isSys s = true →
-      LvlOK S orc σ₀ Root s st mobs ∧
+      LvlOK S orc σ₀ Due s st mobs ∧
         ((st.sched s).firstDone = true ∧ (st.sched s).interrupts = []) := by
   intro s hs hsys
   have hsne : s ≠ "" := by
@@ -94,26 +98,28 @@ theorem unticked_sched {S : Static} (hS : S.Valid) {orc : Oracle} {σ₀ : SimSt
         intro d _ hp
         have hod := hchild d hp
         have hnrd : ¬ Root d := fun hr => hnr (ctx.root_up_own hod hr)
-        refine ⟨fun hin => absurd hin (hunobs d hod), fun _ => ⟨fun hr => absurd hr hnrd, fun _ => ?_⟩⟩
+        refine ⟨fun hin => absurd hin (hunobs d hod),
+          fun _ => ⟨fun hr => absurd (sctx.due_sub d hr) hnrd, fun _ => ?_⟩⟩
         rw [hsame s hs]
       sys := by
         intro c' hcs hp
         rw [hsame s hs, hsame c' (hchild c' hp)]
         exact sctx.min₀ c' s hcs hp
+          (fun hd => hnr (ctx.root_up_own (hchild c' hp) (sctx.due_sub c' hd)))
       persist := by
         intro c' _ h
         rw [hsame s hs]; exact h }
 
 /-! ### one tick of one level: what the caller guarantees, what is achieved -/
 
-structure SchedPre (S : Static) (σ₀ : SimSt) (Root : Comp → Prop) (lvl : Comp) (L : Level)
+structure SchedPre (S : Static) (σ₀ : SimSt) (Root Due : Comp → Prop) (lvl : Comp) (L : Level)
     (roots : List Comp) (st : SimSt) (mobs : List Obs) : Prop where
   hroots : ∀ c ∈ L.wiring.components, c ≠ pseudoExternal → (c ∈ roots ↔ Root c)
   fresh_obs : ∀ x, S.Below lvl x → x ∉ mobs.map Obs.comp
   fresh_count : ∀ x, S.Below lvl x → agetD st.count x 0 = agetD σ₀.count x 0
   fresh_sched : ∀ s, S.Below lvl s → st.sched s = σ₀.sched s
-  own_wake : ∀ c, (Root c → alookup (st.sched lvl).wake c = none) ∧
-    (¬ Root c → alookup (st.sched lvl).wake c = alookup (σ₀.sched lvl).wake c)
+  own_wake : ∀ c, (Due c → alookup (st.sched lvl).wake c = none) ∧
+    (¬ Due c → alookup (st.sched lvl).wake c = alookup (σ₀.sched lvl).wake c)
   own_unique : UniqueKeys (st.sched lvl).wake
   own_keys : ∀ c, c ∈ akeys (st.sched lvl).wake → alookup S.parent c = some lvl
 
@@ -127,23 +133,23 @@ structure SchedPost (S : Static) (orc : Oracle) (σ₀ : SimSt) (Root : Comp →
     (st'.sched lvl).interrupts = (st.sched lvl).interrupts
 
 /-- the induction hypothesis on the nesting depth -/
-def SchedIH (S : Static) (orc : Oracle) (σ₀ : SimSt) (t : SimTime) (Root : Comp → Prop)
+def SchedIH (S : Static) (orc : Oracle) (σ₀ : SimSt) (t : SimTime) (Root Due : Comp → Prop)
     (fuel : Nat) : Prop :=
   ∀ lvl L roots inCh st st' out mobs new,
     tickLevel S orc fuel lvl t roots inCh st = .ok (st', out) → S.level lvl = some L →
-    st'.obs = st.obs ++ new → SchedPre S σ₀ Root lvl L roots st mobs →
-    SchedPost S orc σ₀ Root lvl st st' (mobs ++ new)
+    st'.obs = st.obs ++ new → SchedPre S σ₀ Root Due lvl L roots st mobs →
+    SchedPost S orc σ₀ Due lvl st st' (mobs ++ new)
 
 /-! ### small facts -/
 
 /-- a system without due callback whose scheduler ends up without wakeups had none before -/
 theorem sys_entry_none {S : Static} (hS : S.Valid) {orc : Oracle} {σ₀ : SimSt} {t : SimTime}
-    {Root : Comp → Prop} (ctx : TickCtx S σ₀ t Root) (sctx : SchedCtx S σ₀ t Root) {c P : Comp}
+    {Root Due : Comp → Prop} (sctx : SchedCtx S σ₀ t Root Due) {c P : Comp}
     (hsys : S.isSys c = true) (hpar : alookup S.parent c = some P) {st2 : SimSt} {mobs : List Obs}
-    (hlvl : LvlOK S orc σ₀ Root c st2 mobs)
-    (hnone : (firstWakeups (st2.sched c).wake).2 = none) (hnr : ¬ Root c) :
+    (hlvl : LvlOK S orc σ₀ Due c st2 mobs)
+    (hnone : (firstWakeups (st2.sched c).wake).2 = none) (hnr : ¬ Due c) :
     alookup (σ₀.sched P).wake c = none := by
-  rw [sctx.min₀ c P hsys hpar]
+  rw [sctx.min₀ c P hsys hpar hnr]
   cases hm : (firstWakeups (σ₀.sched c).wake).2 with
   | none => rfl
   | some m =>
@@ -151,7 +157,7 @@ theorem sys_entry_none {S : Static} (hS : S.Valid) {orc : Oracle} {σ₀ : SimSt
     obtain ⟨⟨c', hc'⟩, _⟩ := system_callback_is_min _ (sctx.unique₀ c) m hm
     have hpc' := sctx.keys₀ c c' (mem_akeys_of_alookup_eq_some hc')
     have hcne : c ≠ "" := hS.child_ne_master hpar
-    have hnr' : ¬ Root c' := fun hr => hnr (ctx.root_up c' c hpc' hcne hr)
+    have hnr' : ¬ Due c' := fun hr => hnr (sctx.due_up c' c hpc' hcne hr)
     have := hlvl.persist c' hnr' (by rw [hc']; rfl)
     rw [firstWakeups_none] at hnone
     rw [hnone] at this
